@@ -10,7 +10,7 @@ import GT.Lemmas.RepAutSpec
 
 set_option linter.unusedSectionVars false
 
-namespace GT
+namespace GT.RepW
 
 /-! ## list helpers -/
 
@@ -679,4 +679,4 @@ theorem automatonAccepted_eq_enumerate (ρ : Rep n R) (a : Aut V) (L : Nat)
   exact this
 
 end Rep
-end GT
+end GT.RepW
